@@ -14,3 +14,5 @@ if [ ! -x $V/bin/python ] || ! $V/bin/python -c "import z3, cvc5, deal, icontrac
   echo "import site; site.addsitedir('/venv/lib/python3.12/site-packages')" > "$SP/zz_repo_venv.pth"
 fi
 $V/bin/python -c "import z3, cvc5, deal, icontract, jsonschema, numpy; print('overlay venv ok: z3', z3.get_version_string(), 'numpy', numpy.__version__)"
+# audit of the assumed numpy contracts against the installed numpy (bounded; a failure is a checker error)
+PYTHONPATH="$PWD" PYTHONDONTWRITEBYTECODE=1 $V/bin/python -m vf.audit --quick
